@@ -368,6 +368,35 @@ class MultiAgentProblem(  # type: ignore[misc]
             self._kind.set_effects_kind("INCREASE_EFFECTS")
         elif e.is_decrease():
             self._kind.set_effects_kind("DECREASE_EFFECTS")
+        fluents_in_value = self.environment.free_vars_extractor.get(e.value)
+        if fluents_in_value:
+            t = e.fluent.type
+            if t.is_bool_type():
+                assignment = "BOOLEAN_ASSIGNMENTS"
+            elif t.is_user_type():
+                assignment = "OBJECT_ASSIGNMENTS"
+            else:
+                assignment = "NUMERIC_ASSIGNMENTS"
+            written = self._written_fluents()
+            if any(f.fluent() not in written for f in fluents_in_value):
+                self._kind.set_effects_kind(f"STATIC_FLUENTS_IN_{assignment}")
+            if any(f.fluent() in written for f in fluents_in_value):
+                self._kind.set_effects_kind(f"FLUENTS_IN_{assignment}")
+
+    def _written_fluents(self) -> Set["up.model.fluent.Fluent"]:
+        """The fluents that are the target of some effect of some agent's action."""
+        written: Set["up.model.fluent.Fluent"] = set()
+        for ag in self.agents:
+            for action in ag.actions:
+                if isinstance(action, up.model.action.InstantaneousAction):
+                    effects = list(action.effects)
+                elif isinstance(action, up.model.action.DurativeAction):
+                    effects = [e for el in action.effects.values() for e in el]
+                else:
+                    effects = []
+                for eff in effects:
+                    written.add(eff.fluent.fluent())
+        return written
 
     def _update_problem_kind_condition(self, exp: "up.model.fnode.FNode"):
         ops = self._operators_extractor.get(exp)
